@@ -91,6 +91,9 @@ def pyconst(W, v):
     """A value descriptor handed to the API the way a user would: python literals for
     numbers/bools, Object for objects, FNode for anything else."""
     k = v[0]
+    if len(v) > 2 and v[2] == "node" and k in ("int", "real", "bool", "o"):
+        # the same constant handed over as an expression node instead of a python value / model object
+        return W.expr(v[:2])
     if k == "int":
         return v[1]
     if k == "real":
@@ -1164,6 +1167,14 @@ class ModelHist(Engine):
                 else:
                     rs.shuffle(to)
             sched.append(dict(op, to=to))
+        # the same constants handed over as expression nodes instead of python values / model objects (30% of the
+        # operations that carry a constant); decided by a stream of its own
+        rn = stream(seed, "as-node")
+        for op in sched:
+            for holder, key in ((op, "value"), (op, "default"), (op.get("effect") or {}, "value")):
+                v = holder.get(key)
+                if isinstance(v, list) and len(v) == 2 and v[0] in ("int", "real", "bool", "o") and rn.random() < 0.3:
+                    holder[key] = v + ["node"]
         return {"engine": self.name, "kind": kind, "initial_defaults": init_defaults,
                 "initial_defaults_faulty": idf_faulty, "world": world, "ops": sched}
 
